@@ -358,6 +358,12 @@ func configs(r *vk.Run) []sw.SysOpts {
 	add("gop0+merge-republish", lean, true, "rtmp.merge_write_size", 130)
 	cs[len(cs)-1].Prefix = []string{"J:rtmp", "P:vsh", "PubLeave", "PubArrive"}
 	cs[len(cs)-1].MaxInc = 3
+	// merge-write with a cached GOP and an older subscriber: a joiner is served from the cache while the
+	// merge buffer still holds part of what the cache replays
+	add("gop1+merge-join", lean, true, "rtmp.merge_write_size", 130, "rtmp.gop_num", 1, "httpflv.gop_num", 1)
+	cs[len(cs)-1].Prefix = []string{"J:rtmp", "P:vsh", "P:key", "P:inter"}
+	add("gop0+merge-audio-join", []string{"P:ash", "P:aac", "J:rtmp", "J:flv", "PubLeave", "PubArrive"}, true, "rtmp.merge_write_size", 130)
+	cs[len(cs)-1].Prefix = []string{"J:rtmp", "P:ash", "P:aac"}
 	// a consumer that joins in the gap between two publishers, the second with other tracks (audio only
 	// after audio + video, video only after audio)
 	gap := []string{"P:vsh", "P:key", "P:ash", "P:aac", "J:rtmp", "J:flv", "J:ts", "PubArrive", "PubLeave"}
